@@ -545,8 +545,15 @@ def parseArrivals (impl : String) : Array String :=
   let strip (w : String) : String := (((w.splitOn "@").headD w).splitOn "^").headD w
   ((sec "R").map strip ++ (sec "L")).toArray
 
-def stepLine (_ : Unit) (line : String) : Unit × String :=
-  if line.isEmpty then ((), "") else
+/-- State = number of lines rejected so far. Once `rejectCap` lines have been rejected after a complete search the
+    verdict of the run is settled (the correspondence is broken), so later lines only get the cheap restricted passes
+    and are answered `ok unchecked reject-cap-reached` when those do not reproduce the observation: the run stays
+    bounded on a tree where most lines differ. -/
+def rejectCap : Nat := 300
+
+def stepLine (rejects : Nat) (line : String) : Nat × String :=
+  let keep (p : Unit × String) : Nat × String := (rejects, p.2)
+  if line.isEmpty then (rejects, "") else keep <|
   let (script, impl) := match line.splitOn "\t" with
     | [s, i] => (s, i)
     | [s] => (s, "")
@@ -568,16 +575,20 @@ def stepLine (_ : Unit) (line : String) : Unit × String :=
     -- passes with 0, 1, 2, 3, 4 deviations from the preferred order, then the unrestricted search (only that one can reject)
     let sim0 := initSim sc hints
     -- (each restricted pass with both tie heuristics: arriving sends first / arriving sends last)
-    let r := [some 0, some 1, some 2, some 3, some 4, none].foldl (fun (r : Search) d =>
+    let capped := rejects ≥ rejectCap && !impl.isEmpty
+    let passes : List (Option Nat) := if capped then [some 0, some 1] else [some 0, some 1, some 2, some 3, some 4, none]
+    let r := passes.foldl (fun (r : Search) d =>
       let r := if r.found || r.exhausted then r else solve sc hints impl d sim0 none r
       if r.found || r.exhausted || d.isNone then r else solve { sc with putLast := true } hints impl d sim0 none r)
       { budget := budget }
     if impl.isEmpty then ((), r.cand.getD "<no outcome>")            -- run mode: print a model line
     else if r.found then ((), "ok")
     else if r.exhausted then ((), "ok unchecked search-budget-exhausted")   -- never reject on a truncated search
+    else if capped then ((), "ok unchecked reject-cap-reached")
     else ((), "reject " ++ r.cand.getD "<every order contradicts the observation>")
 
 def main (_args : List String) : IO Unit := do
-  lineLoop (← IO.getStdin) (← IO.getStdout) stepLine ()
+  lineLoop (← IO.getStdin) (← IO.getStdout)
+    (fun (n : Nat) l => let (n', o) := stepLine n l; ((if o.startsWith "reject" then n' + 1 else n'), o)) 0
 
 end Got.Drv.TaskQ
